@@ -775,9 +775,11 @@ fn cmd_access(a: &Args) -> i32 {
     for n in 0..nprog {
         let s = util::mix(seed.wrapping_mul(0x6000_0011), shard * 1_000_000 + n);
         checked += if n % 2 == 0 { wl_access::option_program::<DefaultStrategy>(s) } else { wl_access::option_program::<FillFastSlots>(s) };
+        checked += if n % 2 == 0 { wl_access::rc_program::<FillFastSlots>(s ^ 0x5555) } else { wl_access::rc_program::<DefaultStrategy>(s ^ 0x5555) };
     }
     sched::set_mode(prev_mode);
     runner::count("access.option_programs", nprog);
+    runner::count("access.rc_programs", nprog);
     runner::count("access.option_program_guard_checks", checked);
     runner::count("distinct_nontrivial", hashes.len() as u64);
     let live = wl_access::ROOTS_LIVE.load(std::sync::atomic::Ordering::SeqCst);
